@@ -748,6 +748,16 @@ def c08(ctx, res):
     for e in good[:3]:
         img = b"".join(int(w).to_bytes(2, "big") for w in e["image"])
         cases.append(("ok", e["source"], e["stack"], "out.lc3", "same_size", img))
+    # no destination on the command line: the default (source name with .lc3, in the working directory)
+    for e in cp["emit_fail"][:6]:
+        for pre in (True, False):
+            cases.append(("default_dest_emit_fail", e["source"], e["stack"], "DEFAULT", pre, None))
+    for src in ("br nowhere\nhalt\n", "add r0 r0 #99\n", ".orig x3000\n.orig x3000\n", "lab .stringz \"open\n"):
+        cases.append(("default_dest_other_failure", src, False, "DEFAULT", True, None))
+    for e in good[:3]:
+        img = b"".join(int(w).to_bytes(2, "big") for w in e["image"])
+        for pre in (True, False):
+            cases.append(("default_dest_ok", e["source"], e["stack"], "DEFAULT", pre, img))
     # sources that assemble to no word at all: the complete object is the origin word
     for src, origin in (("", 0x3000), ("\n\n", 0x3000), ("; nothing here\n", 0x3000), (".orig x4000\n", 0x4000), (".orig x4000\r\n.end\r\n", 0x4000),
                         (".end", 0x3000), (" \t \n", 0x3000), (".break\n", 0x3000)):
@@ -772,7 +782,7 @@ def c08(ctx, res):
         cd = os.path.join(d, "c%d" % ix)
         os.makedirs(cd, exist_ok=True)
         _write(os.path.join(cd, "in.asm"), src)
-        dpath = dest if dest.startswith("/") else os.path.join(cd, dest)
+        dpath = dest if dest.startswith("/") else os.path.join(cd, "in.lc3" if dest == "DEFAULT" else dest)
         if kind == "dest_is_directory":
             os.makedirs(dpath, exist_ok=True)
         elif kind == "readonly_dir":
@@ -788,7 +798,7 @@ def c08(ctx, res):
             shutil.rmtree(os.path.join(cd, "ro"))
             _write(os.path.join(cd, "ro"), b"not a directory")
             before = snapshot(dpath)
-        r = lace(ctx, ["compile", "in.asm", dest] + (["-f", "stack"] if stack else []), cwd=cd, wrapper=wrapper)
+        r = lace(ctx, ["compile", "in.asm"] + ([] if dest == "DEFAULT" else [dest]) + (["-f", "stack"] if stack else []), cwd=cd, wrapper=wrapper)
         after = snapshot(dpath)
         return ix, r, before, after
     for ix, r, before, after in pmap(one, range(len(cases))):
@@ -823,10 +833,11 @@ def c08(ctx, res):
     c08_inject(ctx, res, good[:1 if not ctx.thorough() else 6], d)
     c08_fsize(ctx, res, big, d)
     c08_fifo(ctx, res, d)
+    c08_removed_cwd(ctx, res, d)
     floors = ["fault:emit_fail", "fault:ok", "fault:ok_top_of_memory", "fault:dev_full", "fault:missing_parent", "fault:dest_is_directory",
               "dest:pre-existing", "dest:absent", "success_complete", "failure_destination_untouched",
               "fault:name_not_utf8", "fault:name_long_2byte", "fault:name_long_3byte", "fault:name_long_4byte", "fault:name_long_ascii",
-              "fault:ok_big_zero_tail", "fault:ok_big_zero_middle", "dest:pre-existing-same-size", "fault:file_size_limit", "file_size_limit:object_fits", "fault:ok_no_statements", "fault:fifo_reader_goes_away"]
+              "fault:ok_big_zero_tail", "fault:ok_big_zero_middle", "dest:pre-existing-same-size", "fault:file_size_limit", "file_size_limit:object_fits", "fault:ok_no_statements", "fault:fifo_reader_goes_away", "fault:default_dest_emit_fail", "fault:default_dest_ok", "fault:working_directory_removed"]
     res.require(floors, "L2")
     return res
 
@@ -837,6 +848,37 @@ def _snap_brief(s):
     if s[0] == "file":
         return "file %d bytes %s" % (len(s[1]), s[1][:24].hex())
     return s[0]
+
+
+def c08_removed_cwd(ctx, res, d):
+    """The working directory of the process has been removed (its parent is still reachable through
+    `..`): whatever lace makes of that, the all-or-nothing rule holds for the destination."""
+    exe = common.cli_bin(ctx)
+    env = dict(common.ENV, NO_COLOR="1", XDG_CACHE_HOME=ctx.scratch)
+    for k, (src, ok) in enumerate((("add r0 r0 #1\nhalt\n", True), ("add r0 r0 #99\n", False))):
+        for pre in (True, False):
+            base = os.path.join(d, "cwd%d_%d" % (k, pre))
+            for sub in ("src", "out", "gone"):
+                os.makedirs(os.path.join(base, sub), exist_ok=True)
+            _write(os.path.join(base, "src", "p.asm"), src)
+            dest = os.path.join(base, "out", "p.lc3")
+            if pre:
+                _write(dest, b"PREVIOUS CONTENTS\n")
+            before = snapshot(dest)
+            p = subprocess.run(["sh", "-c", 'rmdir "$PWD"; exec "$0" compile ../src/p.asm ../out/p.lc3', exe], cwd=os.path.join(base, "gone"),
+                               env=env, stdin=subprocess.DEVNULL, stdout=subprocess.PIPE, stderr=subprocess.PIPE, timeout=60)
+            after = snapshot(dest)
+            res.evaluations += 1
+            res.cls("fault:working_directory_removed")
+            img = bytes.fromhex("30001021f025")
+            detail = {"source": src, "exit": p.returncode, "stderr": p.stderr.decode("utf-8", "replace")[-300:], "before": _snap_brief(before), "after": _snap_brief(after)}
+            if p.returncode == 101 or p.returncode < 0:
+                res.violate("C08/crash/working_directory_removed", "`lace compile` crashed (exit %s) in a removed working directory" % p.returncode, detail)
+            elif p.returncode == 0 and not (ok and after is not None and after[0] == "file" and after[1] == img):
+                res.violate("C08/exit-0-incomplete-file/working_directory_removed", "exit 0 but the destination does not hold the complete object file", detail)
+            elif p.returncode != 0 and after != before:
+                res.violate("C08/failed-but-destination-changed/working_directory_removed",
+                            "exit %s but the destination was %s" % (p.returncode, "created" if before is None else "modified"), detail)
 
 
 def c08_fifo(ctx, res, d):
@@ -1063,6 +1105,44 @@ def c14_transport(ctx, res):
             res.violate("C14/transport/crash", "`lace debug` crashed (exit %s)" % base.rc, {"script": scripts[si], "run": base.brief()})
     res.cls("l2:transport_scripts", len(by))
     res.samples.append({"transport_script": scripts[0]})
+
+
+# ------------------------------------------------------------------ C15 (L2: eval through both readers)
+
+def c15_cli(ctx, res):
+    """`eval` lines through the real `--command` and standard-input readers: operands written every
+    way (`#` literals after a blank or a comma, hex, labels, several blanks) must arrive intact. The
+    values printed afterwards are known (the program is fixed) and the two transports must agree."""
+    d = _dir(ctx, "c15")
+    _write(os.path.join(d, "e.asm"), "and r0 r0 #0\nhalt\nval .fill x1234\nptr .fill x3002\n")
+    script = ["eval add r1, r1, #5", "print r1", "eval add r1 r1 #-2", "print r1", "eval and r2, r1, #1", "print r2",
+              "eval add r3,r3,#7", "print r3", "eval ld r4, val", "print r4", "eval   add   r5 ,  r5 ,  #+3", "print r5",
+              "eval add r6 r6 x0A", "print r6", "eval lea r0 val", "print r0", "eval not r7 r7", "print r7", "exit"]
+    want = ["x0005", "x0003", "x0001", "x0007", "x1234", "x0003", "x000a", "x3002", "x0200"]
+    runs = {}
+    for via in ("arg;", "arg\n", "stdin\n", "stdin;", "split"):
+        args = ["debug", "e.asm", "--minimal"]
+        stdin = b""
+        if via.startswith("arg"):
+            args += ["--command", via[3:].join(script)]
+        elif via == "split":
+            args += ["--command", ";".join(script[:7])]
+            stdin = "\n".join(script[7:]).encode() + b"\n"
+        else:
+            stdin = via[5:].join(script).encode() + b"\n"
+        r = lace(ctx, args, stdin=stdin, cwd=d, timeout=30)
+        runs[via] = r
+        res.evaluations += 1
+        res.cls("l2:eval_script_via:" + via.rstrip(";\n"))
+        got = [l for l in r.err.decode("utf-8", "replace").splitlines() if re.fullmatch(r"x[0-9a-f]{4}", l.strip())]
+        got = [g.strip() for g in got]
+        # R7 starts at xFDFF: NOT gives x0200
+        if r.rc is None or r.crashed:
+            res.violate("C15/cli/crash", "`lace debug` crashed (exit %s) on a script of evals" % r.rc, dict(r.brief(), delivery=via, script=script))
+        elif got != want:
+            res.violate("C15/cli/wrong-effect", "evals delivered as %r leave %s, the instructions' ISA semantics give %s" % (via, got, want),
+                        dict(r.brief(), delivery=via, script=script))
+    res.require(["l2:eval_script_via:arg", "l2:eval_script_via:stdin", "l2:eval_script_via:split"], "L2")
 
 
 # ------------------------------------------------------------------ C16 (L2: the real readers)
